@@ -244,6 +244,8 @@ TEnd == /\ l <= Len(T) /\ Ev.ev = "end"
         /\ Check("no_crash", Ev.status \in {"ok", "pyxform_error"})
         /\ Check("predicted_rejection", outcome.status = "error" => Ev.status = "pyxform_error")
         /\ Check("accepted_means_spec_done", (Ev.status = "ok" /\ Prop # "C17fuzz") => outcome.status = "done")
+        \* a form the specification accepts must not be refused (the generated forms stay inside the modelled fragment)
+        /\ Check("valid_form_accepted", (outcome.status = "done" /\ Prop # "C17fuzz") => Ev.status = "ok")
         /\ (Prop = "C17" => C17Env)
         /\ (Ev.status = "ok" =>
               /\ (Prop = "C04" => C04Env)
